@@ -224,11 +224,11 @@ def build(tier="quick", seed=0):
     pack.add(Obligation("C17.split.paths[part numbers 0..11, suffix lengths 1..3]", lambda tier: prove_paths("C17.split.paths[part numbers 0..11, suffix lengths 1..3]", th_split_paths, judge_split_paths), replay=lambda w: {"call": "c17_split", "args": {"n": 12, "count": 1}},
                         functions=FU, mode="finite case analysis (12 consecutive part numbers incl. more digits than the suffix length)"))
 
-    def run_split_history(n, count, ending):
+    def run_split_history(n, count, ending, target="/abs/parts/out.records", reader=None):
         def th():
             fresh_fs()
             D = desc()
-            w = it.call(sp.g["SplitWriter"], ["/abs/parts/out.records"], {"count": str(count)})
+            w = it.call(sp.g["SplitWriter"], [target], {"count": str(count)})
             for i in range(n):
                 it.call(it.getattr_(w, "write"), [it.call(D, [], {"n": SInt(vs[i % 4]), "s": f"r{i}", "_generated": GEN})], {})
             for op in ENDINGS[ending]:
@@ -236,7 +236,7 @@ def build(tier="quick", seed=0):
             parts = []
             for path in sorted(it.vfs):
                 try:
-                    parts.append((path, [it.unbase(r.attrs["s"]) for r in rd_stream(path)], None))
+                    parts.append((path, [it.unbase(r.attrs["s"]) for r in (reader or rd_stream)(path)], None))
                 except PyRaise as e:
                     parts.append((path, [], f"{e.cls_name}: {e}"))
             return parts
@@ -259,6 +259,12 @@ def build(tier="quick", seed=0):
             name = f"C17.split.history[N={n}, count={count}, {ending}]"
             pack.add(Obligation(name, lambda tier, name=name, n=n, count=count, ending=ending: prove_paths(name, run_split_history(n, count, ending), judge_split_history(n, count), lambda m_, p: {}, allow_raise=("error",)),
                                 replay=lambda w, n=n, count=count, ending=ending: {"call": "c17_split", "args": {"n": n, "count": count, "ending": ending}}, functions=FU, mode="concrete history (N, count), symbolic values"))
+
+    # targets given as an adapter URI / a bare file name in the working directory are split like any other (only "-" / nothing means standard output)
+    for target, reader in (("jsonfile://out.json", "json"), ("out.records", "stream"), ("stream://out.records", "stream"), ("jsonfile://./sub/out.json", "json")):
+        name = f"C17.split.target[{target}, N=5, count=2]"
+        pack.add(Obligation(name, lambda tier, name=name, target=target, reader=reader: prove_paths(name, run_split_history(5, 2, "close", target, rd_json if reader == "json" else rd_stream), judge_split_history(5, 2), lambda m_, p: {}, allow_raise=("error",)),
+                            replay=lambda w, target=target: {"call": "c17_split_target", "args": {"target": target}}, functions=FU, mode="relative and adapter-URI targets"))
 
     # ------------------------------------------------------------------ rotation
     def th_rotation(same_second):
